@@ -48,7 +48,7 @@ def check_history(ctx, sc):
     nt = bool(labels & {"aborted", "transport-loss"})
     ctx.note(sc, nontrivial=nt, classes=[sc["family"], sc["schedule"]["policy"], out["how"]] + sorted(labels))
     if out["how"] == "budget":
-        ctx.inconclusive += 1
+        ctx.inconclusive += 1  # (a livelock is C05's / C06's clause)
         return
     if L.died(rep):
         ctx.exclude("thread-died(C05)")
